@@ -434,6 +434,26 @@ pub fn all_suites(thorough: bool) -> Vec<Suite> {
     mt.ttl = true;
     v.push(suite("mem-ttl", mt, std_tables(), ttl_ops(false), d(5, 6)));
     v.push(suite("mem-wide", mt, std_tables(), wide_ops(), d(4, 5)));
+    // limited scans over a mix of live, expired-but-unswept and deleted keys
+    v.push(suite(
+        "mem-ttl-range",
+        mt,
+        std_tables(),
+        vec![
+            ins_ttl(0, V_X, 1, 0),
+            ins(0, V_Y),
+            ins(1, V_X),
+            ins_ttl(1, V_Y, 1, 0),
+            Op::Advance(3),
+            Op::Range { lo: 0, hi: 3, limit: 1 },
+            Op::Range { lo: 0, hi: 3, limit: 2 },
+            Op::Range { lo: 2, hi: 3, limit: 1 },
+            Op::Delete { k: 0, ts: 0 },
+            Op::Sweep,
+            Op::Len,
+        ],
+        d(5, 6),
+    ));
     {
         let mut ops = wide_ops();
         ops.push(Op::Flush);
